@@ -1,8 +1,7 @@
 """Concrete oracles for the handler-level properties: a small-scope enumeration of scenarios run on the REAL handlers of the
 current tree through contracts/sim.py.  Used only to turn a failed obligation into a replayable failing input; a clean
 search proves nothing and is never counted.  Every scenario family below passes on the unchanged tree (scenarios that would
-hit the open known findings F5c/F13b/F13c/F16/F21 - EOF before Metadata with inconsistent sizes, ABANDON configured for a
-receiver-side fault - are not generated)."""
+hit the open known finding F5c - ABANDON configured for a receiver-side fault - are not generated)."""
 from __future__ import annotations
 
 import itertools
